@@ -143,11 +143,27 @@ EXT3={
  "C19":REFCAT+" and every document the generators of C04 and C13 build: tags of every interaction, tag entries, titles. Every HTTP method kind (each once with Tags as first child, once as last).",
  "C20":" A declared tag is referred to by every interaction whose automatic tag has its name (not a deletable declaration).",
 }
+EXT4={
+ "C01":" The INCLUDE parameter over the stress alphabet (bare, quoted) and the empty quoted string in every parameter position of every directive kind.",
+ "C02":" EVERY single-fault project of C11 / C02 (all fault kinds, places and deliveries) also written with CRLF and with CR line ends under the generic location oracle.",
+ "C03":" Every Tags / allOf / or list of length 2..4 over three names that repeats a name, under every iteration order.",
+ "C04":" The Protocol directive first, between and after the methods.",
+ "C05":" Pool block with the one-byte path '/'; end-of-line comments directly after the last byte and after a tab.",
+ "C06":" ALL token sequences of length 2..3 (thorough: 4 over 18 tokens) x every contiguous run of whole directives moved into an included file: the forest and the kind of rejection are the reference resolver's on the sequence written in one file.",
+ "C12":" Own-property names that differ from one another in letter case only.",
+ "C13":" or rules among the parameter schemas; every parameter's entry equals the entry of the same property in a probe type written with the same object (differential), usedUserTypes of pathVariables = the types the parameters use; rule forms naming an object / array / undefined type at every position are rejected.",
+ "C17":" Every run of 1..2 blanks and tabs between keyword and parameter.",
+ "C18":" Every declaration in turn moved into an included file.",
+ "C19":" A bare Description directly before each method's Tags.",
+ "C20":" Fresh types that inherit from / refer to existing types.",
+}
 for k,v in EXT.items():
     CHECKS[k]["text"]+=v
 for k,v in EXT2.items():
     CHECKS[k]["text"]+=v
 for k,v in EXT3.items():
+    CHECKS[k]["text"]+=v
+for k,v in EXT4.items():
     CHECKS[k]["text"]+=v
 ENGINES=[
  {"name":"E-REFCAT","path":"internal/checks/refcat.go","serves_properties":[],"kind_free_text":"reference compiler (real lexemes -> reference resolver of C06 -> PASTE substitution -> expected interactions, tags, path variables, names, faults) run over fixtures, pool selections and, through a tap, the documents of the generators of C04 / C13 / C19; serves C04 C06 C07 C11 C13 C19 next to their own engines"},
